@@ -854,6 +854,13 @@ class _BufferedReceiver:
                 self._put_message_waiter = self._loop.create_future()
                 try:
                     await self._put_message_waiter
+                except asyncio.CancelledError:
+                    # NOTE: The pump is being stopped by close() while it
+                    #   holds an event already taken from the server. Keep
+                    #   it: should the server refuse the close event, the
+                    #   connection stays open and the pump is restarted.
+                    self._messages.append(received_event)
+                    raise
                 finally:
                     self._put_message_waiter = None
 
